@@ -200,22 +200,27 @@ def run_real_persist(attempts):
     return names, ended, len(runs), open_socks
 
 
+def judge_real(attempts):
+    names, ended, made, open_socks = run_real_persist(attempts)
+    bad = None
+    if ended != "running" or made != len(attempts):
+        bad = "persist() over real connection attempts ended by itself (%s) after %d of %d scripted attempts (%s)" % (ended, made, len(attempts), [a.get("_kind") for a in attempts][:made])
+    elif names.count("back_off") != len(attempts):
+        bad = "persist() yielded %d BackOff events for %d finished attempts" % (names.count("back_off"), len(attempts))
+    elif open_socks:
+        bad = "socket of attempt %s left open by persist()" % open_socks
+    return bad
+
+
 def real_family(rep, rnd, n):
     cases = 0
     for i in range(n):
         attempts = [real_attempt(rnd) for _ in range(rnd.choice([2, 4, 8]))]
-        names, ended, made, open_socks = run_real_persist(attempts)
+        bad = judge_real(attempts)
         cases += 1
         rep.add_case(("real-persist", i))
         for a in attempts:
             rep.count("real_attempt", a["_kind"])
-        bad = None
-        if ended != "running" or made != len(attempts):
-            bad = "persist() over real connection attempts ended by itself (%s) after %d of %d scripted attempts (%s)" % (ended, made, len(attempts), [a["_kind"] for a in attempts][:made])
-        elif names.count("back_off") != len(attempts):
-            bad = "persist() yielded %d BackOff events for %d finished attempts" % (names.count("back_off"), len(attempts))
-        elif open_socks:
-            bad = "socket of attempt %s left open by persist()" % open_socks
         if bad:
             rep.violation(bad, scenario=dict(kind="real-persist", attempts=[fam.jsonable_sc(fam.strip_meta(a)) for a in attempts]), family="C16:real-attempts")
     rep.families.append(dict(name="C16:real-attempts", cases=cases, rule="persist() driving the REAL WebSocket/WebsocketSession over the simulated network through 2-8 attempts that fail in different ways (resolver/connect failure, request write failing with various errnos and error texts, rejection, EOF, garbage, protocol error, recv failure): it must never end by itself, must back off after every attempt and leave no socket open"))
@@ -321,7 +326,8 @@ def run(rep, info, model, tier, seed):
             rep.count("outcome", o)
         res = oracle(sc, items, ws, log, ended)
         if res:
-            rep.violation(res[0], scenario=dict(min=str(sc["min"]), max=str(sc["max"]), attempts=sc["attempts"] if len(sc["attempts"]) < 60 else [sc["attempts"][0], "... x%d" % len(sc["attempts"])], draws=[str(d) for d in sc["draws"][:60]], exits=sc["exits"][:60], kwargs=sc["kwargs"]),
+            rep.violation(res[0], scenario=dict(kind="outcome-sequence", min=str(sc["min"]), max=str(sc["max"]), attempts=list(sc["attempts"]), draws=[str(d) for d in sc["draws"]],
+                                                exits=list(sc["exits"]), kwargs=sc["kwargs"]),
                           family="C16:outcome-sequences")
         if m is not None:
             got = canon_items(items, ws)
@@ -349,5 +355,21 @@ def run(rep, info, model, tier, seed):
 
 
 def replay(body):
-    print("re-run: /venv/bin/python /verif/check.py C16 quick (scenario in the replay file)")
-    return 2
+    sc = body["scenario"]
+    if sc.get("kind") == "real-persist":
+        attempts = [fam.unjson_sc(a) for a in sc["attempts"]]
+        for a in attempts:
+            a["steps"] = [tuple(x) for x in a.get("steps", [])]
+        bad = judge_real(attempts)
+        print("REPLAY:", ("VIOLATION reproduced: %s" % bad) if bad else "property holds on this input")
+        return 1 if bad else 0
+    if sc.get("kind") != "outcome-sequence":
+        print("this replay file predates the complete scenario format: re-run /venv/bin/python /verif/check.py C16 quick")
+        return 2
+    sc = dict(min=Fraction(sc["min"]), max=Fraction(sc["max"]), attempts=sc["attempts"], draws=[Fraction(d) for d in sc["draws"]], exits=sc["exits"],
+              kwargs=sc.get("kwargs") or {})
+    items, ws, log, ended = run_impl_persist(sc)
+    res = oracle(sc, items, ws, log, ended)
+    print("how persist() ended:", ended, "; items yielded:", len(items))
+    print("REPLAY:", ("VIOLATION reproduced: %s" % res[0]) if res else "property holds on this input")
+    return 1 if res else 0
